@@ -16,7 +16,8 @@ RULE = ("generated 1-3-file programs (plus included files) with labels and const
         "only in letter case from names in other files, x output selectors (-o x.bin, -o x.raw, -o x (no extension), make_bin, make_raw, make_wav, "
         "--implicit-bin, -o together with make_*); distinct = distinct listings with >= 3 symbols in >= 2 files")
 ASSUMPTIONS = ["when both -o and a make_* directive are present the statement does not say which output is 'first': either location is accepted, exactly one listing must exist",
-               "the value field is accepted as -?[0-7]+ (zero padded) equal to the value; included files are included once"]
+               "the value field is accepted as -?[0-7]+ (zero padded) equal to the value; included files are included once",
+               "'named after it with a .lst suffix' is read as: the output's own format suffix (.bin of a bin file, .raw of a raw file) is replaced by .lst, any other name gets .lst appended (a tape image x.wav may give x.wav.lst or x.lst)"]
 DECIDING_COUNTERS = ["cli_runs", "listings_parsed", "symbols_checked"]
 MIN_DISTINCT = 30
 
@@ -35,7 +36,7 @@ def gen_prog(rnd):
     vals = [0, -1, -2, 1, 0o177777, 0o200000, 1 << 20, -(1 << 18), 5, 5, 0o1000, 7, -0o100000]
     for i, f in enumerate(prog.files):
         for j in range(rnd.randrange(1, 5)):
-            nm = rnd.choice(["valA", "VALa", "vala", "zz", "Zz", "mid", "MID"]) if rnd.random() < 0.5 else f"q{i}c{j}"
+            nm = rnd.choice(["valA", "VALa", "vala", "zz", "Zz", "mid", "MID", "dot.name", "x.y.z", "a.b"]) if rnd.random() < 0.6 else f"q{i}c{j}"
             if any(getattr(s, "name", None) and s.name.lower() == nm.lower() for s in f.stmts if s.k == "assign"):
                 continue
             f.stmts.insert(rnd.randrange(1, len(f.stmts) + 1), apm.assign(nm, apm.num(rnd.choice(vals))))
@@ -46,7 +47,7 @@ def gen_prog(rnd):
     return prog, ref
 
 
-SELECTORS = ["o-bin", "o-raw", "o-noext", "o-subdir", "make_bin", "make_raw", "make_wav", "implicit", "o+make", "make_bin-path"]
+SELECTORS = ["o-bin", "o-raw", "o-noext", "o-subdir", "make_bin", "make_raw", "make_wav", "implicit", "o+make", "make_bin-path", "o-dat", "make_raw-bin", "make_bin-img"]
 
 
 def parse_listing(text):
@@ -123,27 +124,35 @@ def run_case(case, cnt=None, root=None):
         argv_sel = []
         candidates = []          # acceptable listing paths
         stem = main.name[:-4]
+        # the listing is named after the first output: its own format suffix (.bin for a bin file, .raw for a raw file) is replaced by
+        # .lst, any other name just gets .lst appended
         if sel == "o-bin":
-            argv_sel = ["-o", "image.bin"]; candidates = [["image.lst", "image.bin.lst"]]
+            argv_sel = ["-o", "image.bin"]; candidates = [["image.lst"]]
         elif sel == "o-raw":
-            argv_sel = ["-o", "image.raw"]; candidates = [["image.lst", "image.raw.lst"]]
+            argv_sel = ["-o", "image.raw"]; candidates = [["image.lst"]]
         elif sel == "o-noext":
             argv_sel = ["-o", "image"]; candidates = [["image.lst"]]
+        elif sel == "o-dat":
+            argv_sel = ["-o", "prog.dat"]; candidates = [["prog.dat.lst"]]
         elif sel == "o-subdir":
-            argv_sel = ["-o", "out/image.bin"]; candidates = [["out/image.lst", "out/image.bin.lst"]]
+            argv_sel = ["-o", "out/image.bin"]; candidates = [["out/image.lst"]]
         elif sel == "make_bin":
-            main.stmts.append(apm.simple("make_bin")); candidates = [[stem + ".lst", stem + ".bin.lst"]]
+            main.stmts.append(apm.simple("make_bin")); candidates = [[stem + ".lst"]]
         elif sel == "make_bin-path":
-            main.stmts.append(apm.simple("make_bin", '"out/mk.bin"')); candidates = [["out/mk.lst", "out/mk.bin.lst"]]
+            main.stmts.append(apm.simple("make_bin", '"out/mk.bin"')); candidates = [["out/mk.lst"]]
+        elif sel == "make_bin-img":
+            main.stmts.append(apm.simple("make_bin", '"rom.img"')); candidates = [["rom.img.lst"]]
         elif sel == "make_raw":
-            main.stmts.append(apm.simple("make_raw", '"mk.raw"')); candidates = [["mk.lst", "mk.raw.lst"]]
+            main.stmts.append(apm.simple("make_raw", '"mk.raw"')); candidates = [["mk.lst"]]
+        elif sel == "make_raw-bin":
+            main.stmts.append(apm.simple("make_raw", '"img.bin"')); candidates = [["img.bin.lst"]]
         elif sel == "make_wav":
-            main.stmts.append(apm.simple("make_wav", '"mk.wav"')); candidates = [["mk.lst", "mk.wav.lst"]]
+            main.stmts.append(apm.simple("make_wav", '"mk.wav"')); candidates = [["mk.wav.lst", "mk.lst"]]
         elif sel == "implicit":
-            argv_sel = ["--implicit-bin"]; candidates = [[stem + ".lst", stem + ".bin.lst"]]
+            argv_sel = ["--implicit-bin"]; candidates = [[stem + ".lst"]]
         else:
             main.stmts.append(apm.simple("make_bin", '"mk.bin"'))
-            argv_sel = ["-o", "image.bin"]; candidates = [["mk.lst", "mk.bin.lst"], ["image.lst", "image.bin.lst"]]
+            argv_sel = ["-o", "image.bin"]; candidates = [["mk.lst"], ["image.lst"]]
         ref = apm.Ref(prog).run()
         texts = refcheck.render_all(prog)
         refcheck.materialise(prog, texts, work)
